@@ -56,6 +56,8 @@ CLAIM = (
     "(limits taken at call time follow the array of the call, limits frozen from data= stay frozen, process-wide default instances included). "
     "Every numeric argument (limits, centre, half range, quantiles, stretch parameters) spelled as NumPy scalars of every integer width / float precision, 0-d arrays and torch scalars "
     "is either rejected or behaves like the Python number, through CustomNormalization with and without data= and through show_2d. "
+    "The same image scaled by 2**-997 ... 2**997 (float64; representable subsets in float32 / float16), with and without a pedestal, gives the result of scale 1; "
+    "the same numbers in masked arrays, matrices, lists, torch tensors and unusual layouts give the result of the plain ndarray with masks preserved. "
     "A size x pedestal family (element counts just below / at / just above 2**16, 2**20 and, thorough, 2**22; int32/int64/float64 data of small spread on "
     "pedestals up to 2**40 / 1e9) repeats the clauses on whole large arrays, so a behaviour that switches on the array size or loses the offset is seen. "
     "Exploration is the right level: the property quantifies over configurations and data kinds, not over histories."
@@ -1450,6 +1452,263 @@ def spelling_display_item(item, seed=0):
     return t
 
 
+# ----------------------------------------------------------------------------- data MAGNITUDE family (scale invariance)
+# The same image multiplied by powers of two next to 1e-300 ... 1e300 (2**-997 ... 2**997; exact, so every operation of an affine
+# normalisation commutes with the scaling bit for bit as long as nothing under- or overflows), in float64 and the representable subset
+# in float32 / float16, with and without a pedestal of the same magnitude, limits and centres scaled along. The values are multiples of
+# 1/64 in [0.125, 12], so the stored values, their differences and vmax - vmin stay normal numbers (float16: exactly representable
+# subnormals) at every scale used. Oracle: the result equals the result at scale 1 (observed on HEAD: bit-identical, deviation 0.0 for
+# every dtype; tolerances 1e-12 / 1e-6 / 5e-3 for float64 / float32 / float16; the effect looked for — a span compared with an absolute
+# epsilon — is 1.0) and satisfies the usual clauses (observed worst on HEAD: float64 5.6e-17, float32 1.3e-7, float16 9.6e-4 = one
+# float16 ulp in the affine clause; judged at 1e-9 / 5e-5 / 2e-2).
+MAG_EXPONENTS = {
+    "float64": [-997, -100, -40, -23, -10, 0, 10, 40, 100, 997],
+    "float32": [-100, -40, -23, -10, 0, 10, 40, 100],
+    "float16": [-12, -10, 0, 10],
+}
+MAG_TOL = {"float64": 1e-12, "float32": 1e-6, "float16": 5e-3}
+MAG_CLAUSE_TOL = {"float64": TOL64, "float32": TOL32, "float16": 2e-2}
+MAG_BASE = [0.125, 0.5, 1.0, 2.5, 4.0, 1.75, 3.25, 0.75, 2.0, 2.0, 1.0, 3.5]
+MAG_INTERVALS = [
+    ("quantile", {"lower_quantile": 0.02, "upper_quantile": 0.98}, {}),
+    ("quantile", {"lower_quantile": 0.25, "upper_quantile": 0.75}, {}),
+    ("quantile", {"lower_quantile": 0, "upper_quantile": 1}, {}),
+    ("manual", {}, {}),
+    ("manual", {}, {"vmin": 1.0}),
+    ("manual", {}, {"vmax": 3.0}),
+    ("manual", {}, {"vmin": 1.0, "vmax": 3.0}),
+    ("manual", {}, {"vmin": -1.0, "vmax": 6.0}),
+    ("centered", {}, {}),
+    ("centered", {}, {"vcenter": 2.0}),
+    ("centered", {}, {"vcenter": 2.0, "half_range": 1.5}),
+]
+
+
+def mag_array(dtname, exponent, pedestal, decor):
+    base = np.array(MAG_BASE, dtype=np.float64) + (8.0 if pedestal else 0.0)
+    a = np.ldexp(base, exponent).astype(dtname)
+    if not np.array_equal(a.astype(np.float64), np.ldexp(base, exponent)) or not np.all(np.isfinite(a)) or np.any(a == 0):
+        raise Broken(f"magnitude family: {dtname} cannot hold the image at 2**{exponent} exactly")
+    if decor == "all":
+        a[1], a[6], a[9] = np.nan, np.inf, -np.inf
+    return a.reshape(3, 4)
+
+
+def mag_kwargs(itv, stretch, exponent, pedestal):
+    it, fixed, rel = itv
+    kw = {"interval_type": it, "stretch_type": stretch[0]}
+    kw.update(stretch[1])
+    kw.update(fixed)
+    for k, v in rel.items():
+        shift = 0.0 if k == "half_range" else (8.0 if pedestal else 0.0)
+        kw[k] = math.ldexp(v + shift, exponent)  # exact
+    return kw
+
+
+def magnitude_item(item, seed=0):
+    dtname, pedestal, decor = item
+    t = Tally()
+    tolc = MAG_CLAUSE_TOL[dtname]
+    for itv in MAG_INTERVALS:
+        for st in STRETCHES:
+            for mode in MODES:
+                ref = None
+                for e in [0] + [x for x in MAG_EXPONENTS[dtname] if x != 0]:
+                    a = mag_array(dtname, e, pedestal, decor)
+                    kw = mag_kwargs(itv, st, e, pedestal)
+                    fin = finite_exact(a)
+                    obs, dev, probs = measure(a, mode, kw, fin, tol=tolc)
+                    case = {"part": "magnitude", "dtype": dtname, "exponent": e, "pedestal": pedestal, "decor": decor, "interval": [itv[0], itv[1], itv[2]], "stretch": [st[0], st[1]], "mode": mode}
+                    if e == 0:
+                        ref = obs
+                    elif "exc" not in obs and ref is not None and "exc" not in ref:
+                        same = obs["shape"] == ref["shape"] and np.array_equal(obs["mask"], ref["mask"])
+                        d = float("inf")
+                        if same:
+                            with np.errstate(all="ignore"):
+                                dd = np.abs(obs["data"] - ref["data"])[~ref["mask"]]
+                            d = float(np.max(np.where(np.isnan(dd), np.inf, dd))) if dd.size else 0.0
+                        if not d <= MAG_TOL[dtname]:
+                            probs.append(("scale_invariant", f"result {np.round(np.where(obs['mask'], np.nan, obs['data']), 4).tolist()} differs from the result for the same image at scale 1, {np.round(np.where(ref['mask'], np.nan, ref['data']), 4).tolist()}"))
+                    if probs:
+                        probs.sort(key=lambda p_: (RELATION_ORDER + ["scale_invariant"]).index(p_[0]))
+                        more = f" [also: {', '.join(r for r, _ in probs[1:])}]" if len(probs) > 1 else ""
+                        small = "tiny" if e <= -20 else "small" if e < 0 else "one" if e == 0 else "large" if e < 50 else "huge"
+                        t.fail({"relation": probs[0][0], "mode": mode, "interval": interval_label(kw), "dtype": dtname, "magnitude": small, "via": "magnitude"}, case,
+                               f"{dtname}(3,4) image x 2**{e} (~{2.0 ** e:.0e}){' on a pedestal' if pedestal else ''}, decor={decor}, mode={mode} { {k: v for k, v in kw.items()} }: {probs[0][1]}{more}")
+                    nontrivial = e != 0 and "exc" not in obs
+                    t.case(key=("mag", dtname, e, pedestal, decor, str(itv), str(st), mode) if nontrivial else None, nontrivial=nontrivial,
+                           outcome=("mag", dtname, pedestal, decor, str(itv), st[0], mode, not probs))
+                    t.extra["magnitude_points"] += 1
+                    if e != 0:
+                        t.extra["magnitude_points_" + ("below_1" if e < 0 else "above_1")] += 1
+    return t
+
+
+# ----------------------------------------------------------------------------- input CONTAINER family
+# The same numbers handed over as np.ma.MaskedArray (nomask, all-False mask, a user mask over inner pixels / over the extreme pixels,
+# NaN/inf under the mask, NaN/inf outside the mask, masked_invalid), np.matrix, nested lists, torch tensors, read-only / Fortran /
+# non-contiguous arrays. Oracle: rejected (exception, counted) or — NaNs are masked wherever they are (outside and under the input's
+# mask), entries the input shows are shown, the visible part is finite, inside [0,1] and monotone and equals what a plain ndarray with the
+# same UNDERLYING numbers gives (hidden numbers count; +-inf behave as they do for a plain ndarray: clipped to 0 / 1), and the input object
+# is left unchanged. The property says nothing about keeping a caller's mask or about hidden numbers and the limits: what HEAD does there
+# (the mask is dropped, the numbers under it take part in the limits) is COUNTED in the evidence, not judged.
+CONTAINERS = ["ma_nomask", "ma_all_false", "ma_user_mask_inner", "ma_user_mask_extremes", "ma_nan_under_mask", "ma_nan_outside_mask",
+              "ma_nan_all_false_mask", "masked_invalid", "matrix", "list", "torch", "readonly", "fortran", "noncontiguous"]
+CONT_NUMBERS = [5.0, 2.0, 7.0, 3.5, 9.0, 4.0, 6.0, 8.0, 2.5, 7.5, 0.5, 50.0]
+CONT_INTERVALS = [("quantile", {}), ("manual", {}), ("manual", {"vmin": 2.0, "vmax": 8.0}), ("centered", {"vcenter": 5.0})]
+CONT_STRETCHES = [("linear", {}), ("power", {"power": 0.5}), ("logarithmic", {"logarithmic_index": 1000.0}), ("asinh", {"asinh_linear_range": 0.1})]
+
+
+def container_build(name, dtname):
+    """(container object, underlying numbers U, hidden positions H as a bool array) — U carries NaN/inf where the variant has them."""
+    U = np.array(CONT_NUMBERS, dtype=dtname).reshape(3, 4)
+    H = np.zeros(U.shape, dtype=bool)
+    if name == "ma_nomask":
+        return np.ma.array(U.copy()), U, H
+    if name == "ma_all_false":
+        return np.ma.array(U.copy(), mask=np.zeros(U.shape, dtype=bool)), U, H
+    if name == "ma_user_mask_inner":
+        H[0, 2] = H[1, 1] = True
+        return np.ma.array(U.copy(), mask=H.copy()), U, H
+    if name == "ma_user_mask_extremes":
+        H[2, 2] = H[2, 3] = True  # hides 0.5 and 50, the minimum and the maximum
+        return np.ma.array(U.copy(), mask=H.copy()), U, H
+    if name == "ma_nan_under_mask":
+        U[0, 1], U[1, 0] = np.nan, np.inf
+        H[0, 1] = H[1, 0] = H[2, 1] = True
+        return np.ma.array(U.copy(), mask=H.copy()), U, H
+    if name == "ma_nan_outside_mask":
+        U[0, 1], U[2, 0] = np.nan, -np.inf
+        H[1, 1] = True
+        return np.ma.array(U.copy(), mask=H.copy()), U, H
+    if name == "ma_nan_all_false_mask":
+        U[0, 1] = np.nan
+        return np.ma.array(U.copy(), mask=np.zeros(U.shape, dtype=bool)), U, H
+    if name == "masked_invalid":
+        U[0, 1], U[1, 0] = np.nan, np.inf
+        return np.ma.masked_invalid(U.copy()), U, H
+    if name == "matrix":
+        with warnings.catch_warnings():
+            warnings.simplefilter("ignore")
+            return np.matrix(U.copy()), U, H
+    if name == "list":
+        return U.tolist(), U, H
+    if name == "torch":
+        import torch
+
+        return torch.tensor(U.copy()), U, H
+    if name == "readonly":
+        x = U.copy()
+        x.flags.writeable = False
+        return x, U, H
+    if name == "fortran":
+        return np.asfortranarray(U.copy()), U, H
+    if name == "noncontiguous":
+        big = np.zeros((6, 8), dtype=dtname)
+        big[::2, 1::2] = U
+        return big[::2, 1::2], U, H
+    raise ValueError(name)
+
+
+def container_state(c):
+    if isinstance(c, np.ma.MaskedArray):
+        return (np.ma.getdata(c).tobytes(), np.ma.getmaskarray(c).tobytes(), c.shape)
+    if isinstance(c, np.ndarray):
+        return (np.asarray(c).tobytes(), c.shape, c.flags.writeable)
+    if isinstance(c, list):
+        return repr(c)
+    try:
+        return c.detach().numpy().tobytes()
+    except Exception:
+        return None
+
+
+def norm_call(cn, kw, mode, data_obj, value_obj):
+    try:
+        with warnings.catch_warnings():
+            warnings.simplefilter("ignore")
+            with np.errstate(all="ignore"):
+                n = cn.CustomNormalization(data=data_obj if mode == "frozen" else None, **kw)
+                out = n(value_obj)
+    except Exception as e:
+        return {"exc": f"{type(e).__name__}: {e}"}
+    return {"shape": tuple(np.shape(out)), "data": np.asarray(np.ma.getdata(out), dtype=np.float64), "mask": np.ma.getmaskarray(out).copy(), "is_ma": isinstance(out, np.ma.MaskedArray)}
+
+
+def container_item(item, seed=0):
+    cname, dtname = item
+    cn = _lib()
+    t = Tally()
+    tol = TOL32 if dtname == "float32" else TOL64
+    for it, ikw in CONT_INTERVALS:
+        for st, skw in CONT_STRETCHES:
+            kw = {"interval_type": it, "stretch_type": st}
+            kw.update(ikw)
+            kw.update(skw)
+            for mode in MODES:
+                c, U, H = container_build(cname, dtname)
+                cdata, _, _ = container_build(cname, dtname)  # a second object for data=
+                before = container_state(c)
+                r = norm_call(cn, kw, mode, cdata, c)
+                case = {"part": "container", "container": cname, "dtype": dtname, "kwargs": kw, "mode": mode}
+                cls = {"relation": None, "container": cname, "mode": mode, "interval": interval_label(kw), "via": "container"}
+                shown = f"{cname} ({dtname}(3,4), numbers {np.where(H, np.nan, U).ravel().tolist()} visible) mode={mode} {kw}"
+                t.extra["container_points"] += 1
+                if "exc" in r:
+                    t.extra["container_rejected"] += 1
+                    t.extra["container_rejected:" + cname] += 1
+                    t.case(key=None, nontrivial=False, outcome=("container", cname, mode, "rejected", r["exc"][:50]))
+                    continue
+                t.extra["container_accepted:" + cname] += 1
+                V = np.where(H, np.nan, U)  # the visible numbers
+                r_all = norm_call(cn, kw, mode, U.copy(), U.copy())
+                r_vis = norm_call(cn, kw, mode, V.copy(), V.copy())
+                probs = []
+                if container_state(c) != before:
+                    probs.append(("input_unchanged", "the input object was modified by the call"))
+                if r["shape"] != U.shape:
+                    probs.append(("shape", f"output shape {r['shape']} for input {U.shape}"))
+                else:
+                    o, m = r["data"], r["mask"]
+                    nan_vis = np.isnan(U) & ~H
+                    fin_vis = np.isfinite(U) & ~H
+                    if H.any() and not m[H].all():
+                        t.extra["container_points_where_the_user_mask_is_dropped"] += 1  # not demanded by the property: counted, not judged
+                    nan_any = np.isnan(U)  # outside AND under the input's mask: a NaN never comes back as a visible number
+                    if nan_any.any() and not m[nan_any].all():
+                        k = int(np.flatnonzero(nan_any & ~m)[0])
+                        where = "under" if H.ravel()[k] else "outside"
+                        probs.append(("nan_masked", f"NaN at flat index {k}, {where} the input's mask, came back unmasked with value {o.ravel()[k]!r}"))
+                    if m[fin_vis].any():
+                        probs.append(("finite_unmasked", f"a visible finite entry came back masked (mask {m.ravel().tolist()})"))
+                    sel = np.isfinite(U) & ~m  # every finite number the result shows (hidden numbers count: the same underlying numbers as a plain ndarray)
+                    of = o[sel]
+                    if of.size and (np.isnan(of).any() or of.min() < -tol or of.max() > 1 + tol):
+                        probs.append(("into_unit_interval", f"visible finite entries map to {np.round(of, 4).tolist()}, not all inside [0, 1]"))
+                    else:
+                        order = np.argsort(U[sel], kind="stable")
+                        if of.size > 1 and np.any(np.diff(of[order]) < -tol):
+                            probs.append(("monotone", f"visible entries sorted by input give outputs {np.round(of[order], 4).tolist()}"))
+                    if "exc" not in r_all and sel.any():
+                        d = float(np.max(np.abs(o[sel] - r_all["data"][sel])))
+                        if not d <= tol:
+                            probs.append(("equals_plain_ndarray", f"visible entries {np.round(o[sel], 4).tolist()} differ from the plain ndarray's {np.round(r_all['data'][sel], 4).tolist()}"))
+                    sv = sel & ~H
+                    if "exc" not in r_vis and sv.any() and H.any():
+                        d = float(np.max(np.abs(o[sv] - r_vis["data"][sv])))
+                        if not d <= tol:
+                            t.extra["container_points_where_hidden_numbers_set_the_limits"] += 1  # not demanded by the property: counted, not judged
+                if probs:
+                    order_ = ["input_unchanged", "shape", "nan_masked", "finite_unmasked", "into_unit_interval", "monotone", "equals_plain_ndarray"]
+                    probs.sort(key=lambda p_: order_.index(p_[0]))
+                    for rel in sorted({p_[0] for p_ in probs}, key=order_.index):  # one failure per broken relation: they have different causes
+                        msg = [p_[1] for p_ in probs if p_[0] == rel][0]
+                        t.fail(dict(cls, relation=rel), dict(case, relation=rel), f"{shown}: {msg}")
+                t.case(key=("container", cname, dtname, str(sorted(kw.items(), key=str)), mode), nontrivial=True, outcome=("container", cname, mode, "accepted", tuple(sorted({p_[0] for p_ in probs}))))
+    return t
+
+
 # ----------------------------------------------------------------------------- stretch o inverse
 def stretch_objects():
     cn = _lib()
@@ -1528,6 +1787,7 @@ def run(ctx):
         "both ways the library itself uses the object are explored: limits frozen from data= at construction (show_2d) and limits taken at call time (list_of_arrays_to_rgba)",
         "float ramps span +-1e3; float data near the dtype's maximum (where max-min overflows) is not in the alphabet",
         "+-inf inputs may map to any value; only finite inputs and NaNs are judged",
+        "MaskedArray input: on HEAD the mask of the input is dropped and the numbers under it take part in the limits; the property does not speak about either, so both are counted (count_container_points_where_...) and not judged; NaNs must come back masked whether they were outside or under the input's mask",
     )
     data = data_descriptors(quick)
     specs = interval_specs(quick)
@@ -1607,6 +1867,15 @@ def run(ctx):
     if exs["spelling_points"] < 2000 or exs["spelling_accepted"] < 1000 or exs["spelling_accepted:np_signed_int"] < 100 or exs["spelling_accepted:np_unsigned_int"] < 100:
         raise Broken("spelling family degenerate")
 
+    # data MAGNITUDE family and input CONTAINER family
+    mitems = [(dt, ped, dec) for dt in MAG_EXPONENTS for ped in (False, True) for dec in ("none", "all")]
+    ctx.pmap(magnitude_item, mitems, chunk=1, label="magnitudes", seed=ctx.seed)
+    citems = [(c, dt) for c in CONTAINERS for dt in ("float64", "float32")]
+    ctx.pmap(container_item, citems, chunk=1, label="containers", seed=ctx.seed)
+    exm = ctx.tally.extra
+    if exm["magnitude_points_below_1"] < 3000 or exm["magnitude_points_above_1"] < 3000 or exm["container_points"] < 800 or exm["container_accepted:ma_nan_outside_mask"] < 20:
+        raise Broken("magnitude / container families degenerate")
+
     worst = inverse_identities(ctx.fail, ctx.tally)
     ctx.say(f"stretch/inverse identities: {ctx.tally.extra['inverse_identity_points']} compositions, worst deviation {worst:.3g}")
 
@@ -1627,6 +1896,18 @@ def run(ctx):
             "presets": names,
             "resolve_forms": [f[0] for f in resolve_forms([(0, Fraction(0)), (1, Fraction(1))])] if resolve is not None else [],
             "display_norms": (names + DISPLAY_EXTRA) if ditems else [],
+            "magnitude_family": {
+                "scales": {k: [f"2**{e}" for e in v] for k, v in MAG_EXPONENTS.items()},
+                "image": "(3,4), multiples of 1/64 in [0.125, 4], with / without a pedestal of 8 (same magnitude), with / without NaN, +inf, -inf",
+                "configurations": f"{len(MAG_INTERVALS)} intervals (limits and centres scaled along) x {len(STRETCHES)} stretches x {len(MODES)} modes",
+                "oracle": "result equals the result at scale 1; usual clauses",
+            },
+            "container_family": {
+                "containers": CONTAINERS,
+                "dtypes": ["float64", "float32"],
+                "configurations": f"{len(CONT_INTERVALS)} intervals x {len(CONT_STRETCHES)} stretches x {len(MODES)} modes",
+                "oracle": "rejected, or: NaN masked (outside and under the mask), visible part finite in [0,1], monotone and equal to the plain ndarray with the same underlying numbers, input unchanged; dropped user masks and hidden numbers in the limits are counted only",
+            },
             "spelling_family": {
                 "parameters": ["vmin", "vmax", "vcenter", "half_range", "lower_quantile", "upper_quantile", "power", "logarithmic_index", "asinh_linear_range"],
                 "spellings": "python int/float; np.int8/16/32/64, np.uint8/16/32/64; np.float16/32/64; 0-d arrays (image dtype, float64); torch int8/16/32/64/uint8/float32/float64 scalars — only those that hold the value exactly",
@@ -1670,6 +1951,19 @@ def replay(ctx, case):
     if "inverse" in case:
         t = Tally()
         inverse_identities(lambda cls, c, msg: (ctx.fail(cls, c, msg) if c == case else None), t)
+        return
+    if case.get("part") in ("magnitude", "container"):
+        if case["part"] == "magnitude":
+            t = magnitude_item((case["dtype"], case["pedestal"], case["decor"]), seed=ctx.seed)
+        else:
+            t = container_item((case["container"], case["dtype"]), seed=ctx.seed)
+        from mc.harness import jsonable as _js
+
+        for f in t.fails:
+            if f["case"] == _js(case) or f["case"] == case:
+                print("  observed:", f["msg"])
+                ctx.fail(f["cls"], case, f["msg"])
+        print("  expected: " + ("the result of the same image at scale 1 and the usual clauses" if case["part"] == "magnitude" else "NaN masked, visible part in [0,1], monotone and equal to the plain ndarray's, input unchanged"))
         return
     if case.get("part") in ("spelling", "spelling-display"):
         t = spelling_item(case["image"], seed=ctx.seed) if case["part"] == "spelling" else spelling_display_item(case["image"], seed=ctx.seed)
